@@ -312,22 +312,28 @@ func mergeAndPersistInvertedSection(segments []*SegmentBase, dropsIn []*roaring.
 
 		fdvReadersAvailable := false
 		var dvIterClone *docValueReader
-		for segmentI, segment := range segmentsInFocus {
+		// every segment that has doc values for the field, also one whose
+		// dictionary for it is empty (a field may carry doc values, such as
+		// encoded shapes, without having a single term)
+		for segmentI, segment := range segments {
 			// check for the closure in meantime
 			if isClosed(closeCh) {
 				return nil, 0, seg.ErrClosed
 			}
 
 			fieldIDPlus1 := uint16(segment.fieldsMap[fieldName])
+			if fieldIDPlus1 == 0 {
+				continue
+			}
 			if dvIter, exists := segment.fieldDvReaders[SectionInvertedTextIndex][fieldIDPlus1-1]; exists &&
 				dvIter != nil {
 				fdvReadersAvailable = true
 				dvIterClone = dvIter.cloneInto(dvIterClone)
 				err = dvIterClone.iterateAllDocValues(segment, func(docNum uint64, terms []byte) error {
-					if newDocNums[segmentI][docNum] == docDropped {
+					if newDocNumsIn[segmentI][docNum] == docDropped {
 						return nil
 					}
-					err := fdvEncoder.Add(newDocNums[segmentI][docNum], terms)
+					err := fdvEncoder.Add(newDocNumsIn[segmentI][docNum], terms)
 					if err != nil {
 						return err
 					}
